@@ -148,7 +148,21 @@ impl Property for C21 {
                                 // where-clauses on a trait's own parameter can be "proven" circularly: the parameter's type
                                 // occurs in the impl header, is assumed well-formed there, and its well-formedness may rest
                                 // on the very impl being checked
-                                let qual = if sup.args[0] != Ty::Param(0) { ":where-clause-on-trait-parameter" } else { "" };
+                                // — which needs the instantiated subject to be a type whose own well-formedness is a real
+                                // obligation (a struct with where-clauses somewhere in it); for a plain type nothing is circular
+                                fn constrained(p: &Program, t: &Ty) -> bool {
+                                    match t {
+                                        Ty::Adt(c, a) => !p.ctors[*c].wcs.is_empty() || a.iter().any(|x| constrained(p, x)),
+                                        _ => false,
+                                    }
+                                }
+                                let qual = if sup.args[0] == Ty::Param(0) {
+                                    ""
+                                } else if constrained(p, &sa.args[0]) {
+                                    ":where-clause-on-trait-parameter"
+                                } else {
+                                    ":where-clause-on-trait-parameter-of-plain-type"
+                                };
                                 out.fail(format!("{}:accepted-but-implied-bound-false{}", sname, qual), format!("[{}] the program passes checked_program(), `{}` holds for the well-formed type, but the trait's where-clause `{}` does not\n{}", sname, pr.tref(&atom), pr.tref(&sa), text));
                                 break 'outer;
                             }
